@@ -193,7 +193,47 @@ def replay_file(pid, path, mine):
     return chk.finish()
 
 
-def trace_phase(chk, pid, name, n, profile, mine, numeric=True, batch=400, nontrivial_fn=None):
+def float_reads(chk, c, term_c, S, order, rng, reads, mine, rec):
+    """read actions on a circuit with continuous parameters: expectations from the evaluator (ev_reads, calibrated against TLC
+    on the ring runs of the same check) applied to the abstract term TLC exported for this recorded history"""
+    from ..adapters import circuit as ad
+    from .. import ev_reads as er
+    nin = term_c["nu"] - len(term_c["hord"])
+    herald_ph = sum(h[2] for h in term_c["hord"]) + sum(term_c["anc"])
+    if nin <= 0 or nin > 6 or herald_ph > 2 or S.shape[0] > 9:
+        return 0
+    nph = rng.randint(0, max(0, min(2, 3 - herald_ph)))
+    ins = [0] * nin
+    for _ in range(nph):
+        ins[rng.randrange(nin)] += 1
+    ins = tuple(ins)
+    lossy = S.shape[0] > term_c["nu"] + len(term_c["anc"])
+    nbad = 0
+    todo = []
+    if "simulate" in reads:
+        todo.append((("ok", "simulate", 0, ins), er.sim_table(term_c, S, ins)))
+    if "sdist" in reads:
+        todo.append((("ok", "sdist", 0, ins), er.sampler_dist(term_c, S, ins)))
+    if "analyze" in reads:
+        todo.append((("ok", "analyze", 0, ins, frozenset()), er.analyzer_table(term_c, S, ins, frozenset(), lossy)))
+    if "quick" in reads and nph > 0:
+        pnr = rng.random() < 0.5
+        todo.append((("ok", "quick", 0, ins, frozenset(), pnr), er.quick_table(term_c, S, ins, frozenset(), pnr)))
+    before = ad.snapshot(c)
+    for event, payload in todo:
+        chk.count(key="floatread" + repr(event) + repr(rec.values[:4]))
+        for clause, detail in ad.check_read(c, event, ("float", payload), term_c, order):
+            if clause.split("/")[0] in mine:
+                script = [(e["res"], e["op"], e["t"], e["a"]) for e in rec.events[1:]]
+                nbad += chk.violation(clause, "continuous parameters: " + detail,
+                                      script={"module": "LwCircuitTrace+evaluator", "init": rec.events[0]["circ"], "values": rec.values, "events": script,
+                                              "read": list(event)}, sig={"clause": clause})
+    if ad.snapshot(c) != before and "read_changed_state" in mine:
+        nbad += chk.violation("read_changed_state", "a read action changed the circuit", script={"read": "float"}, sig={"clause": "read_changed_state"})
+    return nbad
+
+
+def trace_phase(chk, pid, name, n, profile, mine, numeric=True, batch=400, nontrivial_fn=None, reads=()):
     """code -> spec: histories recorded from real objects, validated by LwCircuitTrace (TLC); for structure-only
     (continuous-parameter) traces TLC decides structure and exports the term, the evaluator decides the numbers"""
     import multiprocessing as mp
@@ -235,6 +275,8 @@ def trace_phase(chk, pid, name, n, profile, mine, numeric=True, batch=400, nontr
                     except Exception as e:  # noqa: BLE001
                         raise MachineryError("evaluator failed on exported term: %r" % (e,))
                     r = ad.conforms(c, term[o - 1], S)
+                    if r is None and reads:
+                        nbad += float_reads(chk, c, term[o - 1], S, list(ad.LAST_ORDER), random.Random(tid * 31 + o), reads, mine, rec)
                     if r and r[0] in mine:
                         script = [(e["res"], e["op"], e["t"], e["a"]) for e in rec.events[1:]]
                         nbad += chk.violation(r[0], "object %d (continuous parameters): %s" % (o, r[1]),
